@@ -67,6 +67,9 @@ type SimOS struct {
 	failable   int
 	Injected   int
 	ShortWrite bool
+	// RelCwd, if set, is what Getwd reports (a relative path); path resolution
+	// treats it as an alias of the real simulated cwd.
+	RelCwd string
 }
 
 var epoch = time.Date(2001, 2, 3, 4, 5, 6, 0, time.UTC)
@@ -170,6 +173,9 @@ func (s *SimOS) Snapshot() string {
 // ---- path helpers
 
 func (s *SimOS) abs(name string) string {
+	if s.RelCwd != "" && (name == s.RelCwd || strings.HasPrefix(name, s.RelCwd+"/")) {
+		name = s.cwd + strings.TrimPrefix(name, s.RelCwd)
+	}
 	if !strings.HasPrefix(name, "/") {
 		name = s.cwd + "/" + name
 	}
@@ -581,6 +587,10 @@ func (s *SimOS) Getwd() (string, error) {
 	}
 	s.mu.Lock()
 	defer s.mu.Unlock()
+	if s.RelCwd != "" {
+		// a host whose working directory is reported as a relative path
+		return s.RelCwd, nil
+	}
 	return s.cwd, nil
 }
 
